@@ -14,6 +14,7 @@ const (
 	SReal = "Real"
 	SStr  = "Str" // uninterpreted sort of immutable Go strings
 	SBV   = "(_ BitVec 64)"
+	SDyn  = "Dyn" // uninterpreted sort of interface values (any): dyn!nil or a boxed value of some dynamic type
 )
 
 func arrSort(idx, elem string) string { return "(Array " + idx + " " + elem + ")" }
@@ -318,6 +319,8 @@ func zeroOf(sort string) string {
 		return "str!empty"
 	case SBV:
 		return "(_ bv0 64)"
+	case SDyn:
+		return "dyn!nil"
 	}
 	if _, e, ok := arrParts(sort); ok {
 		return "((as const " + sort + ") " + zeroOf(e) + ")"
